@@ -166,10 +166,15 @@ Proof.
       f_equal. f_equal.
       * apply uint_of_unique; [exact Hc | congruence].
       * rewrite Hes.
-        assert (HBL : 2 ^ bits <= B ^ Z.of_nat L) by (rewrite HnZ, Hd; nia).
+        assert (HBL : 2 ^ bits <= B ^ Z.of_nat L).
+        { rewrite HnZ, Hd. pose proof (pow2_pos bits ltac:(lia)) as Hp2. clear - Hq Hp2. nia. }
+        pose proof (pow2_pos bits ltac:(lia)) as Hp2.
         destruct (Z.ltb_spec 0 (eval tl)); destruct (Z.leb_spec (2 ^ bits) (eval hd));
           destruct (Z.leb_spec (2 ^ bits) (eval hd + B ^ Z.of_nat L * eval tl));
-          cbn [orb]; try reflexivity; nia.
+          cbn [orb]; try reflexivity;
+          (generalize dependent (eval tl); generalize dependent (eval hd);
+           generalize dependent (B ^ Z.of_nat L); generalize dependent (2 ^ bits);
+           clear; intros; nia).
     + assert (Hb : bits = 0).
       { destruct (Z.eq_dec bits 0) as [E|N]; [exact E|].
         pose proof (nlimbs_pos bits ltac:(lia)). pose proof (nlimbsN_Z bits H). lia. }
